@@ -62,6 +62,9 @@ type aConfig struct {
 
 type c16Scenario struct {
 	Configs []aConfig `json:"configs"`
+	// Store: every cache is small (8 entries) and persists into one shared badger directory
+	// (caches with the same store url share one store instance)
+	Store bool `json:"store,omitempty"`
 }
 
 func subsetOf(t *rapid.T, label string, pool []string, min int) []string {
@@ -352,7 +355,7 @@ func mutateA(t *rapid.T, prev aConfig) aConfig {
 }
 
 func genC16(t *rapid.T) c16Scenario {
-	sc := c16Scenario{}
+	sc := c16Scenario{Store: rapid.IntRange(0, 9).Draw(t, "store") < 4}
 	n := rapid.IntRange(2, 6).Draw(t, "nConfigs")
 	cur := genAConfig(t)
 	sc.Configs = append(sc.Configs, cur)
@@ -373,7 +376,7 @@ var (
 	graceChecks int // the 10 s close grace of removed servers is waited for a bounded number of times per process
 )
 
-func toPikeConfig(a aConfig, ports []int) *config.PikeConfig {
+func toPikeConfig(a aConfig, ports []int, storeDir string) *config.PikeConfig {
 	c := &config.PikeConfig{}
 	for _, x := range a.Compresses {
 		levels := map[string]uint{}
@@ -386,7 +389,11 @@ func toPikeConfig(a aConfig, ports []int) *config.PikeConfig {
 		c.Compresses = append(c.Compresses, config.CompressConfig{Name: x.Name, Levels: levels})
 	}
 	for _, n := range a.Caches {
-		c.Caches = append(c.Caches, config.CacheConfig{Name: n, Size: 1000, HitForPass: "5m"})
+		cc := config.CacheConfig{Name: n, Size: 1000, HitForPass: "5m"}
+		if storeDir != "" {
+			cc.Size, cc.Store = 8, "badger://"+storeDir+"/shared"
+		}
+		c.Caches = append(c.Caches, cc)
 	}
 	for _, u := range a.Upstreams {
 		uc := config.UpstreamConfig{Name: u.Name, Policy: u.Policy, AcceptEncoding: u.AE, HealthCheck: "/health"}
@@ -481,7 +488,7 @@ func battery(cl *http.Client, a aConfig, ports []int, tag string) map[string]str
 func filterReadded(sc c16Scenario) (c16Scenario, int) {
 	removed := map[int]bool{}
 	n := 0
-	res := c16Scenario{}
+	res := c16Scenario{Store: sc.Store}
 	var prevSlots map[int]bool
 	for _, c := range sc.Configs {
 		c = cloneA(c)
@@ -539,7 +546,11 @@ func execC16raw(sc c16Scenario) *vstat.Outcome {
 	liveDir, freshDir := dir+"/live", dir+"/fresh"
 	_ = os.MkdirAll(liveDir, 0o755)
 	_ = os.MkdirAll(freshDir, 0o755)
-	first, err := marshalConfig(toPikeConfig(sc.Configs[0], livePorts))
+	liveStore, freshStore := "", ""
+	if sc.Store {
+		liveStore, freshStore = liveDir, freshDir
+	}
+	first, err := marshalConfig(toPikeConfig(sc.Configs[0], livePorts, liveStore))
 	if err != nil {
 		out.Inconclusive = true
 		return out
@@ -577,6 +588,14 @@ func execC16raw(sc c16Scenario) *vstat.Outcome {
 		}
 	}
 	retainURI := "/p1/retain?size=100&type=text/plain&cc=300"
+	// with a store the working set is larger than the memory of the cache: most of the
+	// entries live in the store only and must come back from there
+	var retainMore []string
+	if sc.Store {
+		for i := 0; i < 40; i++ {
+			retainMore = append(retainMore, fmt.Sprintf("/p1/retain-%d?size=100&type=text/plain&cc=300", i))
+		}
+	}
 	primed := false
 	if surviving != "" {
 		for _, s := range sc.Configs[0].Servers {
@@ -584,9 +603,28 @@ func execC16raw(sc c16Scenario) *vstat.Outcome {
 				r := pget(cl, fmt.Sprintf("127.0.0.1:%d", livePorts[s.Slot]), "h1.test", retainURI, nil)
 				r2 := pget(cl, fmt.Sprintf("127.0.0.1:%d", livePorts[s.Slot]), "h1.test", retainURI, nil)
 				primed = r.Err == "" && r.Code == 200 && r2.Err == "" && r2.Header.Get("X-Status") == "hit"
+				for _, u := range retainMore {
+					ru := pget(cl, fmt.Sprintf("127.0.0.1:%d", livePorts[s.Slot]), "h1.test", u, nil)
+					if ru.Err != "" || ru.Code != 200 {
+						primed = false
+					}
+				}
+				// all of them are hits now (reloaded from the store where need be)
+				for _, u := range retainMore {
+					ru := pget(cl, fmt.Sprintf("127.0.0.1:%d", livePorts[s.Slot]), "h1.test", u, nil)
+					if ru.Err != "" || ru.Header.Get("X-Status") != "hit" {
+						primed = false
+						if os.Getenv("VERIF_DEBUG") != "" {
+							fmt.Printf("DEBUG retain %s: err %q status %d X-Status %q\n", u, ru.Err, ru.Code, ru.Header.Get("X-Status"))
+						}
+					}
+				}
 				break
 			}
 		}
+	}
+	if os.Getenv("VERIF_DEBUG") != "" {
+		fmt.Printf("DEBUG store=%v surviving=%q primed=%v\n", sc.Store, surviving, primed)
 	}
 	inPlace, setUnset := false, false
 	trafficReqs := 0
@@ -613,7 +651,7 @@ func execC16raw(sc c16Scenario) *vstat.Outcome {
 		for _, cs := range cur.Servers {
 			delete(removedSlots, cs.Slot)
 		}
-		data, err := marshalConfig(toPikeConfig(cur, livePorts))
+		data, err := marshalConfig(toPikeConfig(cur, livePorts, liveStore))
 		if err != nil {
 			out.Inconclusive = true
 			return out
@@ -687,7 +725,7 @@ func execC16raw(sc c16Scenario) *vstat.Outcome {
 		}
 	}
 	final := sc.Configs[len(sc.Configs)-1]
-	freshCfg, err := marshalConfig(toPikeConfig(final, freshPorts))
+	freshCfg, err := marshalConfig(toPikeConfig(final, freshPorts, freshStore))
 	if err != nil {
 		out.Inconclusive = true
 		return out
@@ -728,6 +766,19 @@ func execC16raw(sc c16Scenario) *vstat.Outcome {
 				r := pget(cl, fmt.Sprintf("127.0.0.1:%d", livePorts[s.Slot]), "h1.test", retainURI, nil)
 				if r.Err != "" || r.Header.Get("X-Status") != "hit" {
 					out.Violate("C16", "cache-lost", "an entry cached in %s before the updates is no longer a hit afterwards (status %d, X-Status %q, err %q)", surviving, r.Code, r.Header.Get("X-Status"), r.Err)
+				}
+				lost := 0
+				for _, u := range retainMore {
+					ru := pget(cl, fmt.Sprintf("127.0.0.1:%d", livePorts[s.Slot]), "h1.test", u, nil)
+					if ru.Err != "" || ru.Header.Get("X-Status") != "hit" {
+						lost++
+					}
+				}
+				if lost > 0 {
+					out.Violate("C16", "cache-lost", "%d of %d entries cached in %s (8 entries in memory, the rest in its store) before the updates are no longer hits afterwards although the cache survived every update", lost, len(retainMore), surviving)
+				}
+				if len(retainMore) > 0 {
+					out.Class("retained_entries_in_store_checked")
 				}
 				out.Class("retained_entry_checked")
 				break
